@@ -223,6 +223,14 @@ fn main() {
                 Err(e) => errclass(&e),
             }
         }
+        // sizes <archive> <names hex ,> -> per name "csize.flags" (hex) or "-"
+        "sizes" => {
+            let mut a = match Archive::open(t[1]) { Ok(a) => a, Err(_) => return "OPEN-ERR".to_string() };
+            t[2].split(',').map(|n| {
+                let name = String::from_utf8(unhex(n)).unwrap();
+                match a.find_file(&name) { Ok(Some(i)) => format!("{:x}.{:x}", i.compressed_size, i.flags), _ => "-".to_string() }
+            }).collect::<Vec<_>>().join(",")
+        }
         "par" => par(&t[1..]),
         "multi" => multi(&t[1..]),
         "chain" => chain(&t[1..]),
